@@ -485,3 +485,15 @@ def rfind_in(ch, *pieces):
 
 def char_of_slice(s, lo, n, j):
     return len(s) < lo + n or s[lo:lo + n][j] == s[lo + j]
+
+
+def digit_at(d, i):
+    return not (d.isascii() and d.isdigit() and 0 <= i < len(d)) or (d[i] in "0123456789" and d[i].isdigit())
+
+
+def char_in_token(s, a, tok, b, i):
+    return not (s == a + tok + b and 0 <= i < len(tok)) or s[len(a) + i] == tok[i]
+
+
+def lstrip_noop(d, ch):
+    return d[0:1] == ch or d.lstrip(ch) == d
